@@ -813,8 +813,18 @@ def _any_worker(sub, tagged):
     {"heavy": _heavy_worker, "intrinsic": _intrinsic_worker, "nnlo": _nnlo_worker}[tag](sub, item)
 
 
+def sec_convolution_lemma(rep):
+    """'for any PDF': the pointwise statements above reach the structure functions through the
+    convolution, whose contract (every combination of regular / plus-distribution / local parts present or
+    absent -- the asymptotic matching term is a pure plus distribution) is C01's, re-discharged here."""
+    from . import c01
+
+    c01.sec_quad_kers(rep)
+    c01.sec_convolution(rep)
+
+
 def run(rep, tier, seed, only=None):
-    secs = {"heavy": lambda: sec_heavy(rep, tier), "intrinsic": lambda: sec_intrinsic(rep, tier), "nnlo": lambda: sec_heavy_nnlo(rep, tier), "missing": lambda: sec_missing(rep, tier), "weights": lambda: sec_weights(rep, tier), "missingbounded": lambda: sec_missing_bounded(rep, tier), "schemedispatch": lambda: H.scheme_families(rep, tier), "selfcheck": lambda: sec_selfcheck(rep)}
+    secs = {"heavy": lambda: sec_heavy(rep, tier), "intrinsic": lambda: sec_intrinsic(rep, tier), "nnlo": lambda: sec_heavy_nnlo(rep, tier), "missing": lambda: sec_missing(rep, tier), "weights": lambda: sec_weights(rep, tier), "missingbounded": lambda: sec_missing_bounded(rep, tier), "schemedispatch": lambda: H.scheme_families(rep, tier), "special": lambda: H.special_functions_contract(rep), "convolution": lambda: sec_convolution_lemma(rep), "selfcheck": lambda: sec_selfcheck(rep)}
     # the long O(a_s^2) items run first and share the pool with the short ones
     rep.extra["_gather"] = [] if rep.replay_target is None else None
     for name, f in secs.items():
